@@ -2,7 +2,7 @@
 # tools/benign_eval.sh <ID>... : run the quick check of <ID> against each behaviour-preserving patch /tmp/ben-out/<ID>/b?.diff.
 # The patches were written against commit $BASE of /repo (default b0d2f60): a scratch export of that commit is patched and the
 # check runs with VERIF_REPO pointing at it. A non-zero exit is a FALSE ALARM to investigate. Logs: /tmp/ben-out/<ID>/b?.log
-BASE="${BASE:-b0d2f60}"; OUT="${OUT:-/tmp/ben-out}"
+BASE="${BASE:-b0d2f60}"; OUT="${OUT:-/tmp/ben-out}"; case "$OUT" in /*) ;; *) OUT="/verif/$OUT";; esac
 for c in "$@"; do
   for p in $OUT/$c/b1.diff $OUT/$c/b2.diff $OUT/$c/b3.diff; do
     [ -f "$p" ] || { echo "$c $(basename $p): missing"; continue; }
@@ -10,8 +10,8 @@ for c in "$@"; do
       D=$(mktemp -d /tmp/benmut-XXXXXX); trap 'rm -rf "$D"' EXIT
       mkdir -p "$D/repo"; git -C /repo archive "$BASE" src | tar -x -C "$D/repo"
       if ( cd "$D/repo" && patch -s -p1 < "$p" ); then
-        VERIF_REPO="$D/repo" /verif/check "$c" --tier "${TIER:-quick}" > "${p%.diff}.log" 2>&1
-        echo "$c $(basename $p): exit=$? $(grep -c VIOLATION ${p%.diff}.log) violation lines; $(tail -n 1 ${p%.diff}.log | cut -c1-160)"
+        VERIF_REPO="$D/repo" /verif/check "$c" --tier "${TIER:-quick}" > "/tmp/benign_$(basename $(dirname $p))_$(basename ${p%.diff}).log" 2>&1
+        echo "$c $(basename $p): exit=$? $(grep -c VIOLATION /tmp/benign_$(basename $(dirname $p))_$(basename ${p%.diff}).log) violation lines; $(tail -n 1 /tmp/benign_$(basename $(dirname $p))_$(basename ${p%.diff}).log | cut -c1-160)"
       else echo "$c $(basename $p): PATCH DOES NOT APPLY to $BASE"; fi
     ) &
   done
